@@ -386,6 +386,14 @@ pub fn robust(d: &mut D) {
                 if crc8(&q) == t {
                     q.push(t);
                     all3(d, &q);
+                    // ... and the same nine bytes at the start of a longer receive buffer
+                    for extra in [1usize, 2, 5] {
+                        let mut q2 = q.clone();
+                        q2.extend_from_slice(&d.g.bytes(extra));
+                        all3(d, &q2);
+                        fix_pec(&mut q2);
+                        all3(d, &q2);
+                    }
                     found += 1;
                     if found >= 6 {
                         break 'search;
@@ -426,6 +434,26 @@ pub fn robust(d: &mut D) {
                 q[2] = (q.len() - 4) as u8;
                 fix_pec(&mut q);
                 d.process(5, &q);
+            }
+        }
+    }
+    // the commands the processor knows x short / exact / long data x datagram bit x special destination EIDs
+    for cmd in 0..=9u8 {
+        for n in 0..=4usize {
+            for dbit in 0..2u8 {
+                for dst_eid in [0x23u8, 0xFF, 0x00, 0x34] {
+                    for rq in 0..2u8 {
+                        let mut q: Vec<u8> = vec![0x46, 0x0F, 0, 0x69, 0x01, dst_eid, 0x34, 0xC8, 0x00, (rq << 7) | (dbit << 6) | (d.g.byte() & 0x1F), cmd];
+                        if rq == 0 {
+                            q.push(0);
+                        }
+                        q.extend_from_slice(&d.g.bytes(n));
+                        q.push(0);
+                        q[2] = (q.len() - 4) as u8;
+                        fix_pec(&mut q);
+                        d.process(5, &q);
+                    }
+                }
             }
         }
     }
@@ -609,6 +637,18 @@ pub fn forge(d: &mut D) {
                 fix_pec(&mut q);
                 d.process(5, &q);
             }
+        }
+    }
+    // requesters whose SMBus source address and source EID disagree (outside C12's domain, inside C03-C05's
+    // and C11's): every answerable command, every configured vendor selector
+    for (src_addr, src_eid) in [(0x11u8, 0x12u8), (0x24, 0xA4), (0x7F, 0x00), (0x00, 0xFF), (0x23, 0x56)] {
+        for (cmd, data) in [(1u8, vec![0u8, 0x31]), (2, vec![]), (3, vec![]), (4, vec![0x00]), (5, vec![]), (6, vec![0]), (6, vec![1]), (6, vec![2]), (7, vec![1])] {
+            let mut q: Vec<u8> = vec![0x46, 0x0F, 0, (src_addr << 1) | 1, 0x01, 0x23, src_eid, 0xC8, 0x00, 0x80 | (d.g.byte() & 0x1F), cmd];
+            q.extend_from_slice(&data);
+            q.push(0);
+            q[2] = (q.len() - 4) as u8;
+            fix_pec(&mut q);
+            d.process(5, &q);
         }
     }
     // every value of the control header's first byte (Rq, D, reserved, instance id) on well-formed bodies
@@ -1013,15 +1053,22 @@ pub fn probe(d: &mut D) {
             d.get_length(c, &q);
         }
     }
-    // exhaustive batches: for each (b1, b2) every b0 and several tails
-    let tails: Vec<Vec<u8>> = vec![vec![], vec![0x0F], d.g.bytes(7), vec![0x0F; 3], d.g.bytes(60)];
-    let tj: Vec<Value> = tails.iter().map(|t| jb(t)).collect();
+    // exhaustive batches: for each (b1, b2) every b0 and several tails.  The tails change from batch to batch
+    // and are partly related to the probing context (its address, the EID it was given, header-like bytes)
+    let ctx_vals: [[u8; 2]; 3] = [[0x23, 0x00], [0x51, 0x00], [0x7F, 0x42]]; // (address, EID) of the standard contexts
     for b1 in 0..=255u64 {
         for b2 in 0..=255u64 {
             if !d.thorough && !(b1 == 0x0F || b1 == 0x0E || b1 == 0x10 || b1 == 0x8F || b1 == 0x1F || b1 == 0x07 || b2 == b1 || (b1 * 7 + b2) % 61 == 0) {
                 continue;
             }
-            d.ex(json!({"op":"batch_get_length","ctx":(b1 + b2) % 3,"b1":b1,"b2":b2,"tails":tj}));
+            let c = (b1 + b2) % 3;
+            let [a, e] = ctx_vals[c as usize];
+            let related = vec![(a << 1) | 1, 0x01, a, e, 0xC8, 0x00, 0x80, 0x02];
+            let related2 = vec![(e << 1) | 1, 0x01, e, a, 0xC8];
+            let n1 = d.g.below(12) as usize;
+            let tails: Vec<Vec<u8>> = vec![vec![], vec![0x0F], d.g.bytes(n1), vec![0x0F; 3], related, related2, d.g.bytes(60)];
+            let tj: Vec<Value> = tails.iter().map(|t| jb(t)).collect();
+            d.ex(json!({"op":"batch_get_length","ctx":c,"b1":b1,"b2":b2,"tails":tj}));
         }
     }
 }
